@@ -148,15 +148,21 @@ Definition same_enforce (x y : event) : bool :=
 (* both directions: success only if ..., and conversely *)
 Definition agrees (x : expect) (out : outcome) : bool :=
   match x, out with
-  | XSilent, _ => true
+  | XSilent, Fail => true          (* a trapping hook aborts the whole invocation ... *)
+  | XSilent, Ok _ => false         (* ... so it can never end in a success *)
   | XFail, Fail => true
   | XFail, Ok _ => false
   | XOk enf, Ok (_, l) => list_eqb same_enforce (filter is_enforce l) enf
   | XOk _, Fail => false
   end.
-(* only the "success only if" direction (the entry point may fail for its own reasons) *)
-Definition agrees_sound (x : expect) (out : outcome) : bool :=
-  match out with Fail => true | Ok _ => agrees x out end.
+(* an entry point behind the check: a success needs the check to pass; a refusal is legitimate when
+   the check does not pass or when the entry point's own preconditions [pre] fail - but when the
+   property determines that the check passes and [pre] holds, a refusal is a violation too *)
+Definition agrees_entry (x : expect) (pre : bool) (out : outcome) : bool :=
+  match out with
+  | Ok _ => agrees x out
+  | Fail => match x with XOk _ => negb pre | _ => true end
+  end.
 
 (* ------------------------------------------------------------------------- *)
 (* The rule table itself: rule sets (up to the documented limits) built by    *)
@@ -250,31 +256,97 @@ Definition expected_table (maxid : Z) (T : list rule) (op : adminop) (ret : opti
       end
   end.
 
+(* the preconditions of the entry points themselves (documented limits, duplicates, fingerprints,
+   policy installation), from the table before the call: if they hold and the check passes, the
+   entry point must succeed *)
+Definition within (c : cfg) (s : list signer) (p : list policy) : bool :=
+  (zlen s <=? max_signers c) && (zlen p <=? max_policies c) && negb (isnil s && isnil p)
+  && nodup_s s && nodup_p p.
+Definition fp_free (T : list rule) (r : rule) : bool := negb (existsb (same_fp r) T).
+Definition op_ok (c : cfg) (T : list rule) (M : modes) (now maxid : Z) (op : adminop) : bool :=
+  match op with
+  | AddRule t name valid signers policies =>
+      let r := mkRule (maxid + 1) t name valid signers (map fst policies) in
+      (zlen T <? max_rules c) && valid_until_ok now valid && within c signers (map fst policies)
+      && fp_free T r && forallb (fun pn => install_answer M (fst pn) (snd pn) r) policies
+      && in_u32 (maxid + 2) && in_u32 (zlen T + 1)
+  | UpdName id _ => match find_id id T with Some _ => true | None => false end
+  | UpdValid id valid => match find_id id T with Some _ => valid_until_ok now valid | None => false end
+  | RemoveRule id =>
+      match find_id id T with Some _ => in_u32 (zlen T - 1) | None => false end
+  | AddSigner id s =>
+      match find_id id T with
+      | Some r => negb (mem_s s (r_signers r)) && within c (r_signers r ++ [s]) (r_policies r)
+                  && fp_free T (with_signers (fun l => l ++ [s]) r)
+      | None => false
+      end
+  | RemoveSigner id s =>
+      match find_id id T with
+      | Some r => let f := filter (fun x => negb (signer_eqb s x)) in
+                  mem_s s (r_signers r) && within c (f (r_signers r)) (r_policies r) && fp_free T (with_signers f r)
+      | None => false
+      end
+  | AddPolicy id p n =>
+      match find_id id T with
+      | Some r => negb (mem_p p (r_policies r)) && install_answer M p n r
+                  && within c (r_signers r) (r_policies r ++ [p]) && fp_free T (with_policies (fun l => l ++ [p]) r)
+      | None => false
+      end
+  | RemovePolicy id p =>
+      match find_id id T with
+      | Some r => let f := filter (fun x => negb (N.eqb p x)) in
+                  mem_p p (r_policies r) && within c (r_signers r) (f (r_policies r)) && fp_free T (with_policies f r)
+      | None => false
+      end
+  end.
+
 Record mstate := mkM { ms_modes : modes; ms_deployed : bool; ms_prev : obs; ms_maxid : Z }.
 Definition mstate0 : mstate := mkM modes0 false (mkObs 0 0 [] []) (-1).
 
 (* the authorisation clauses (above) *)
-Definition auth_step (m : mstate) (it : item) : bool :=
+Definition auth_step (c : cfg) (m : mstate) (it : item) : bool :=
   let '(cl, out, _) := it in
-  if negb (ms_deployed m) then true else
   let T := ob_rules (ms_prev m) in
   let now := ob_now (ms_prev m) in
+  if negb (ms_deployed m) then
+    (* no account yet: nothing can be authorised *)
+    match cl, out with
+    | Admin _ _ _, Ok _ | CheckAuth _ _ _, Ok _ | Invoke _ _ _, Ok _ | SetThreshold _ _ _ _ _ _, Ok _ => false
+    | _, _ => true
+    end
+  else
   match cl with
   | Admin sigs auths op =>
-      agrees_sound (expectation T (ms_modes m) now auths sigs [CCall self (fn_of op)]) out
+      agrees_entry (expectation T (ms_modes m) now auths sigs [CCall self (fn_of op)])
+                   (op_ok c T (ms_modes m) now (ms_maxid m) op) out
   | CheckAuth sigs auths cs | Invoke sigs auths cs =>
       agrees (expectation T (ms_modes m) now auths sigs cs) out
-  | SetThreshold via sigs auths _ _ _ =>
+  | SetThreshold via sigs auths _ t nsig =>
       (* called directly, the policy contract is on the call stack and cannot be re-entered *)
-      agrees_sound (expectation T (if via then ms_modes m else mark_busy (ms_modes m)) now auths sigs
-                      [if via then CCall self fn_execute else CCall thr_callee fn_set_threshold]) out
+      agrees_entry (expectation T (if via then ms_modes m else mark_busy (ms_modes m)) now auths sigs
+                      [if via then CCall self fn_execute else CCall thr_callee fn_set_threshold])
+                   ((1 <=? t) && (t <=? nsig)) out
+  | Construct _ _ => match out with Ok _ => false | Fail => true end     (* an account is constructed once *)
   | _ => true
   end.
+
+(* shape of an observation: it names the types it lists ids for, always the same ones, and every
+   stored rule's type is among them (so that every rule is cross-checked against its id list) *)
+Definition shape_ok (prev ob : obs) : bool :=
+  negb (isnil (ob_ids ob))
+  && (isnil (ob_ids prev) || list_eqb ctype_eqb (map fst (ob_ids prev)) (map fst (ob_ids ob)))
+  && forallb (fun r => existsb (fun tl => ctype_eqb (fst tl) (r_type r)) (ob_ids ob)) (ob_rules ob).
+Definition empty_obs (ob : obs) : bool :=
+  (ob_count ob =? 0) && isnil (ob_rules ob)
+  && forallb (fun tl => option_eqb (list_eqb Z.eqb) (snd tl) (Some [])) (ob_ids ob).
 
 (* the table clauses *)
 Definition table_step (c : cfg) (m : mstate) (it : item) : bool :=
   let '(cl, out, ob) := it in
   let prev := ms_prev m in
+  shape_ok prev ob &&
+  (* the ledger moves only by Advance *)
+  (ob_now ob =? ob_now prev + match cl, out with Advance n, Ok _ => n | _, _ => 0 end) &&
   if negb (ms_deployed m) then
     match cl, out with
     | Construct signers policies, Ok _ =>
@@ -283,7 +355,7 @@ Definition table_step (c : cfg) (m : mstate) (it : item) : bool :=
         | [r] => (ms_maxid m <? r_id r) && rule_eqb r (mkRule (r_id r) TDefault 0%N None signers (map fst policies))
         | _ => false
         end
-    | _, _ => true
+    | _, _ => empty_obs ob                       (* before construction there is nothing to show *)
     end
   else
     table_ok c ob &&
@@ -292,12 +364,11 @@ Definition table_step (c : cfg) (m : mstate) (it : item) : bool :=
         match expected_table (ms_maxid m) (ob_rules prev) op ret with
         | Some T' => list_eqb rule_eqb (ob_rules ob) T'
         | None => false
-        end && (ob_now ob =? ob_now prev)
-    | Advance n, Ok _ => same_table prev ob && (ob_now ob =? ob_now prev + n)   (* ledgers pass: nothing lapses *)
-    | _, _ => same_table prev ob && (ob_now ob =? ob_now prev)                  (* refused or read-only: nothing changes *)
+        end
+    | _, _ => same_table prev ob      (* refused, read-only, or ledgers passing: nothing changes, nothing lapses *)
     end.
 
-Definition mon_step (c : cfg) (m : mstate) (it : item) : bool := auth_step m it && table_step c m it.
+Definition mon_step (c : cfg) (m : mstate) (it : item) : bool := auth_step c m it && table_step c m it.
 
 Definition mon_next (m : mstate) (it : item) : mstate :=
   let '(cl, out, ob) := it in
